@@ -56,7 +56,14 @@ func buildKey(ctor int, dBytes []byte, pub ref.Point) (*sm2.PrivateKey, error) {
 	d := new(big.Int).SetBytes(dBytes)
 	switch ctor {
 	case 0:
-		return sm2.NewPrivateKey(cp(dBytes))
+		// the constructor must not keep a reference to the caller's bytes
+		k := append(cp(dBytes), sentinel, sentinel)[:len(dBytes)]
+		priv, err := sm2.NewPrivateKey(k)
+		if k = k[:len(dBytes)+2]; k[len(dBytes)] != sentinel || k[len(dBytes)+1] != sentinel || !bytes.Equal(k[:len(dBytes)], dBytes) {
+			return nil, fmt.Errorf("NewPrivateKey modified its argument or its spare capacity: %x", k)
+		}
+		scribble(k)
+		return priv, err
 	case 1:
 		return sm2.NewPrivateKeyFromInt(d)
 	case 2:
@@ -93,35 +100,53 @@ type signOut struct {
 	r, s *big.Int // as returned (ints signers) or as strictly parsed from sig
 	msg  []byte   // what was signed in message mode (differs from the input for the certificate signer)
 	err  error
+	// argErr: the call modified an argument or wrote into its spare capacity
+	argErr error
 }
 
 // runSigner calls signing entry point id. uid/msg are used by message-mode
 // signers, digest by the others.
-func runSigner(id int, rnd io.Reader, priv *sm2.PrivateKey, uid, msg, digest []byte, seed uint64) (o signOut) {
+func runSigner(id int, rnd io.Reader, priv *sm2.PrivateKey, uid, msg, digest []byte, seed uint64, a *argset) (o signOut) {
 	o.msg = msg
 	switch id {
 	case 0:
-		o.sig, o.err = sm2.SignASN1(rnd, priv, cp(msg), sm2.NewSM2SignerOption(true, cp(uid)))
+		o.sig, o.err = sm2.SignASN1(rnd, priv, a.in("msg", msg), sm2.NewSM2SignerOption(true, a.in("uid", uid)))
 	case 1:
-		o.sig, o.err = priv.Sign(rnd, cp(msg), sm2.NewSM2SignerOption(true, cp(uid)))
+		o.sig, o.err = priv.Sign(rnd, a.in("msg", msg), sm2.NewSM2SignerOption(true, a.in("uid", uid)))
 	case 2:
-		o.sig, o.err = priv.SignWithSM2(rnd, cp(uid), cp(msg))
+		o.sig, o.err = priv.SignWithSM2(rnd, a.in("uid", uid), a.in("msg", msg))
 	case 3:
-		o.r, o.s, o.err = sm2.SignWithSM2(rnd, &priv.PrivateKey, cp(uid), cp(msg))
+		o.r, o.s, o.err = sm2.SignWithSM2(rnd, &priv.PrivateKey, a.in("uid", uid), a.in("msg", msg))
 	case 4:
-		o.sig, o.err = sm2.SignASN1(rnd, priv, cp(digest), nil)
+		o.sig, o.err = sm2.SignASN1(rnd, priv, a.in("hash", digest), nil)
 	case 5:
-		o.sig, o.err = priv.Sign(rnd, cp(digest), sm2.NewSM2SignerOption(false, cp(uid)))
+		o.sig, o.err = priv.Sign(rnd, a.in("hash", digest), sm2.NewSM2SignerOption(false, a.in("uid", uid)))
 	case 6:
-		o.r, o.s, o.err = sm2.Sign(rnd, &priv.PrivateKey, cp(digest))
+		o.r, o.s, o.err = sm2.Sign(rnd, &priv.PrivateKey, a.in("hash", digest))
 	case 7:
-		o.sig, o.err = priv.Sign(rnd, cp(msg), sm2.DefaultSM2SignerOpts)
+		o.sig, o.err = priv.Sign(rnd, a.in("msg", msg), sm2.DefaultSM2SignerOpts)
 	case 8:
-		o.msg, o.sig, o.err = certSign(rnd, priv, seed)
+		o.msg, o.sig, o.err = certSign(rnd, priv, seed, a.scribbling())
 	case 9:
-		o.sig, o.err = sm2.SignASN1(rnd, priv, cp(digest), crypto.SHA256)
+		o.sig, o.err = sm2.SignASN1(rnd, priv, a.in("hash", digest), crypto.SHA256)
 	default:
 		h.HarnessError("no signer %d", id)
+	}
+	o.argErr = a.done(signers[id].name)
+	if a.scribbling() {
+		// what the library returned is the caller's to overwrite: keep copies,
+		// scribble the originals; later calls must not be affected
+		if o.sig != nil && id != 8 {
+			ret := o.sig
+			o.sig = cp(ret)
+			scribble(ret)
+		}
+		if o.r != nil && o.s != nil {
+			r, s := o.r, o.s
+			o.r, o.s = cpi(r), cpi(s)
+			r.SetUint64(0xdeadbeef)
+			s.SetUint64(0xfeedface)
+		}
 	}
 	return
 }
@@ -129,6 +154,9 @@ func runSigner(id int, rnd io.Reader, priv *sm2.PrivateKey, uid, msg, digest []b
 // normalise checks the shape of a successful signer result and fills in both
 // representations. The returned error is a violation.
 func (o *signOut) normalise(sg signer) error {
+	if o.argErr != nil {
+		return o.argErr
+	}
 	if sg.ints {
 		if o.r == nil || o.s == nil {
 			return fmt.Errorf("%s returned no error but r=%v s=%v", sg.name, o.r, o.s)
@@ -149,6 +177,9 @@ func (o *signOut) normalise(sg signer) error {
 
 // failedCleanly checks the shape of a failed signer result.
 func (o *signOut) failedCleanly(sg signer) error {
+	if o.argErr != nil {
+		return o.argErr
+	}
 	if o.err == nil {
 		return fmt.Errorf("%s returned no error", sg.name)
 	}
@@ -168,12 +199,26 @@ func acceptEverywhere(sgName string, pub ref.Point, v *vctx, o *signOut) error {
 		return fmt.Errorf("signature from %s does not satisfy the GB/T 32918.2 verification equation: %s", sgName, desc())
 	}
 	for _, ep := range bytesEPs {
-		if ep.ok(v) && !ep.f(v, o.sig) {
+		if !ep.ok(v) {
+			continue
+		}
+		got, err := ep.call(v, o.sig)
+		if err != nil {
+			return err
+		}
+		if !got {
 			return fmt.Errorf("%s rejects the honest signature made by %s: %s", ep.name, sgName, desc())
 		}
 	}
 	for _, ep := range intsEPs {
-		if ep.ok(v) && !ep.f(v, o.r, o.s) {
+		if !ep.ok(v) {
+			continue
+		}
+		got, err := ep.call(v, o.r, o.s)
+		if err != nil {
+			return err
+		}
+		if !got {
 			return fmt.Errorf("%s rejects the honest signature made by %s: %s", ep.name, sgName, desc())
 		}
 	}
@@ -193,6 +238,7 @@ type complCase struct {
 	MsgSeed  uint64
 	DigLen   int // digest signers: 0 = the SM2 digest of (uid, msg); >= 32 = that many pseudo-random bytes
 	RandSeed uint64
+	Args     uint64 // argument discipline, see argset
 }
 
 func checkComplete(c complCase, rec *h.Rec) error {
@@ -223,6 +269,8 @@ func checkComplete(c complCase, rec *h.Rec) error {
 		rec.Label("uid:>8191")
 	case len(uid) == maxUID:
 		rec.Label("uid:8191")
+	case len(uid) >= 31 && len(uid) <= 33:
+		rec.Label("uid:31..33(ENTL 0x00f8/0x0100/0x0108)")
 	case len(uid) >= 63 && len(uid) <= 65:
 		rec.Label("uid:63..65")
 	case len(uid) == 1:
@@ -233,13 +281,14 @@ func checkComplete(c complCase, rec *h.Rec) error {
 		rec.Label("uid:other")
 	}
 	rec.NTIf(c.KeyKind != 7 || len(uid) != 0 || c.DigLen > 32)
+	args := newArgs(c.Args, rec)
 
 	// ---- ids the standard cannot express: every entry point must refuse
 	if len(uid) > maxUID {
 		if !sg.msgMode || sg.defUID {
 			h.HarnessError("uid>8191 generated for signer %s", sg.name)
 		}
-		o := runSigner(c.Signer, newRand(c.RandSeed), priv, uid, msg, nil, c.RandSeed)
+		o := runSigner(c.Signer, newRand(c.RandSeed), priv, uid, msg, nil, c.RandSeed, args)
 		if err := o.failedCleanly(sg); err != nil {
 			return fmt.Errorf("user id of %d bytes (ENTL overflows 16 bits): %v", len(uid), err)
 		}
@@ -250,14 +299,20 @@ func checkComplete(c complCase, rec *h.Rec) error {
 	}
 
 	// ---- ZA and e as the library computes them
-	v := &vctx{pub: libPub(pub)}
+	v := &vctx{pub: libPub(pub), args: args}
 	eMsg := ref.SM2Digest(effUID(uid), pub, msg)
 	if sg.msgMode || c.DigLen == 0 {
-		za, err := sm2.CalculateZA(libPub(pub), cp(uid))
+		za, err := sm2.CalculateZA(libPub(pub), args.in("uid", uid))
+		if aerr := args.done("CalculateZA"); aerr != nil {
+			return aerr
+		}
 		if err != nil || !bytes.Equal(za, ref.SM2ZA(uid, pub)) {
 			return fmt.Errorf("CalculateZA(uid=%s) = %x, %v; GB/T 32918.2 5.5 gives %x", h.Hex(uid), za, err, ref.SM2ZA(uid, pub))
 		}
-		e, err := sm2.CalculateSM2Hash(libPub(pub), cp(msg), cp(uid))
+		e, err := sm2.CalculateSM2Hash(libPub(pub), args.in("data", msg), args.in("uid", uid))
+		if aerr := args.done("CalculateSM2Hash"); aerr != nil {
+			return aerr
+		}
 		if err != nil || !bytes.Equal(e, eMsg) {
 			return fmt.Errorf("CalculateSM2Hash(uid=%s, msg=%s) = %x, %v; reference e = %x", h.Hex(uid), h.Hex(msg), e, err, eMsg)
 		}
@@ -279,7 +334,10 @@ func checkComplete(c complCase, rec *h.Rec) error {
 		}
 	}
 
-	o := runSigner(c.Signer, newRand(c.RandSeed), priv, uid, msg, digest, c.RandSeed)
+	o := runSigner(c.Signer, newRand(c.RandSeed), priv, uid, msg, digest, c.RandSeed, args)
+	if o.argErr != nil {
+		return o.argErr
+	}
 	if o.err != nil {
 		return fmt.Errorf("%s failed for a valid key d=%x uid=%s msg=%s digest=%x: %v", sg.name, []byte(c.D), h.Hex(uid), h.Hex(msg), digest, o.err)
 	}
@@ -305,8 +363,23 @@ func drawKey(rt *rapid.T) (kind int, d []byte) {
 	return kind, ref.Bytes32(keyOfKind(kind, seed))
 }
 
+// drawArgs: a quarter of the cases plain, the rest with random flavours, half
+// of those with scribbling.
+func drawArgs(rt *rapid.T) uint64 {
+	if rapid.IntRange(0, 3).Draw(rt, "plainArgs") == 0 {
+		return 0
+	}
+	// rapid's integers lean towards small values: spread the drawn word over all nibbles
+	a := gen.Mix(rapid.Uint64().Draw(rt, "args"), 0xa7)&^argScribble | argFlavoured
+	if rapid.Bool().Draw(rt, "scribble") {
+		a |= argScribble
+	}
+	return a
+}
+
 func drawUIDLen(rt *rapid.T, allowRefused bool) int {
-	classes := []int{0, 0, -1, 1, 16, 63, 64, 65, maxUID - 1, maxUID}
+	// 31/32/33: the ENTL bit count grows into its second octet (0x00f8 -> 0x0100)
+	classes := []int{0, 0, -1, 1, 16, 31, 32, 33, 63, 64, 65, maxUID - 1, maxUID}
 	if allowRefused {
 		classes = append(classes, maxUID+1, maxUID+2, 16384, 65536)
 	}
@@ -338,6 +411,7 @@ func TestC06_Complete(t *testing.T) {
 			c.DigLen = rapid.SampledFrom([]int{0, 0, 0, 32, 32, 33, 40, 64, 65, 200}).Draw(rt, "digLen")
 		}
 		c.RandSeed = rapid.Uint64().Draw(rt, "randSeed")
+		c.Args = drawArgs(rt)
 		return c
 	}, checkComplete)
 }
@@ -370,7 +444,8 @@ func checkRetry(c retryCase, rec *h.Rec) error {
 	}
 	rest := gen.Fill(gen.Mix(c.Seed, 0x7274), 32*16)
 	stream := append(cp(c.K1), rest...)
-	o := runSigner(c.Signer, randOf(stream), priv, nil, nil, c.Digest, c.Seed)
+	args := newArgs(gen.Mix(c.Seed, 0xa5)|argFlavoured, rec)
+	o := runSigner(c.Signer, randOf(stream), priv, nil, nil, c.Digest, c.Seed, args)
 	if o.err != nil {
 		return fmt.Errorf("%s failed (nonce path %s, first stream block %x, digest %x, d=%x): %v", sg.name, c.Path, []byte(c.K1), []byte(c.Digest), []byte(c.D), o.err)
 	}
@@ -388,7 +463,7 @@ func checkRetry(c retryCase, rec *h.Rec) error {
 	default:
 		rec.Label("nonce-used:other")
 	}
-	v := &vctx{pub: libPub(pub), e: c.Digest}
+	v := &vctx{pub: libPub(pub), e: c.Digest, args: args}
 	if err := acceptEverywhere(sg.name, pub, v, &o); err != nil {
 		return fmt.Errorf("nonce path %s, first stream block %x: %v", c.Path, []byte(c.K1), err)
 	}
